@@ -232,7 +232,21 @@ Fixpoint emitted_len (l : list emitted) : option Z :=
   | _ :: _ => None
   end.
 
-(* rfbSendCopyRegion: 16 bytes per rectangle appended to updateBuf with no space check.
-   [ublen0] is cl->ublen on entry.  Returns false when the write leaves updateBuf. *)
-Definition copyregion_fits (ublen0 ncopy : Z) : bool :=
-  ublen0 + ncopy * (sz_FramebufferUpdateRectHeader + sz_CopyRect) <=? UPDATE_BUF_SIZE.
+(* rfbSendCopyRegion after the repair of F6 (commit e68aae9): before each rectangle
+     if (cl->ublen + sz_rfbFramebufferUpdateRectHeader + sz_rfbCopyRect > UPDATE_BUF_SIZE) flush;
+   then 16 bytes are appended.  [copy_ublen n u] = cl->ublen after n rectangles, starting at u;
+   [copy_peak n u] = the largest offset ever written to. *)
+Definition copy_rect_bytes : Z := sz_FramebufferUpdateRectHeader + sz_CopyRect.
+
+Fixpoint copy_ublen (n : nat) (ublen : Z) : Z :=
+  match n with
+  | O => ublen
+  | S k => copy_ublen k ((if ublen + copy_rect_bytes >? UPDATE_BUF_SIZE then 0 else ublen) + copy_rect_bytes)
+  end.
+
+Fixpoint copy_peak (n : nat) (ublen : Z) : Z :=
+  match n with
+  | O => ublen
+  | S k => let u := (if ublen + copy_rect_bytes >? UPDATE_BUF_SIZE then 0 else ublen) + copy_rect_bytes in
+           Z.max u (copy_peak k u)
+  end.
